@@ -479,6 +479,12 @@ namespace
             if (l.pos[0] == "bind")
             {
                 const long fbid = std::stol(l.pos.at(1));
+                if (spec_of(fbid).kind == "dly")
+                {
+                    auto &d = *static_cast<decltype(delayed_binding<TS<Int>>(w)) *>(env.feedbacks.at(fbid).get());
+                    d(resolve(env, l.pos.at(2)));
+                    continue;
+                }
                 auto      &fb   = *static_cast<decltype(stdlib::feedback<TS<Int>>(w)) *>(env.feedbacks.at(fbid).get());
                 fb(resolve(env, l.pos.at(2)));
                 continue;
@@ -526,6 +532,14 @@ namespace
                 if (l.has("init")) { h = std::make_shared<FB>(stdlib::feedback<TS<Int>>(w, Int{l.geti("init")})); }
                 else { h = std::make_shared<FB>(stdlib::feedback<TS<Int>>(w)); }
                 env.ports.emplace(id, (*static_cast<FB *>(h.get()))());
+                env.feedbacks[id] = h;
+            }
+            else if (kind == "dly")
+            {
+                // delayed binding: a forward reference resolved by a later `bind`; it is NOT a feedback
+                using DB = decltype(delayed_binding<TS<Int>>(w));
+                std::shared_ptr<void> h = std::make_shared<DB>(delayed_binding<TS<Int>>(w));
+                env.ports.emplace(id, (*static_cast<DB *>(h.get()))());
                 env.feedbacks[id] = h;
             }
             else { throw std::logic_error("hgv: unknown kind " + kind); }
